@@ -759,7 +759,10 @@ def runtime_cfg(scn, facts, lookups="all", shared_names=False):
             "foreign": foreign_first(scn, True),
             # one scenario in six has ANOTHER App started between its start and its lookups (which create its lazy
             # components), over fresh instances of every other component: two Apps of one process share nothing
-            "later": later_app(scn, True)}
+            "later": later_app(scn, True),
+            # one scenario in three ends with Factory.GetComponents(): every component in name order through the same
+            # path as a lookup by name
+            "bulk": bool(scn.setdefault("bulk", scn["id"] % 3 == 1))}
 
 
 def later_app(scn, keep=False):
@@ -966,7 +969,20 @@ def coq_obs(res, app_rank=None):
     if res.get("traced"):
         ops = "(Some (%s, %s))" % (vlib.coq_list(coq_rop(e) for e in (res.get("trace") or [])),
                                    vlib.coq_list(coq_rop(e) for e in (res.get("traceaft") or [])))
-    return "(mkObs %s %s %s %s %s %s)" % (oc, log, vlib.coq_list(fields), vlib.coq_list(lks), la, ops)
+    bulk = "None"
+    if res.get("bulkdone"):
+        bl = []
+        for lo in res.get("bulk") or []:
+            if lo["panic"]:
+                bl.append("LTPanic")
+            elif lo["err"]:
+                bl.append("LTErr")
+            elif lo["tok"]["o"] < 0:
+                bl.append("(LTVer (VOrig 4999))")
+            else:
+                bl.append("(LTVer %s)" % coq_ver(lo["tok"]))
+        bulk = "(Some %s)" % vlib.coq_list(bl)
+    return "(mkObs %s %s %s %s %s %s %s)" % (oc, log, vlib.coq_list(fields), vlib.coq_list(lks), la, ops, bulk)
 
 
 def coq_extras(scn, rank):
@@ -1147,7 +1163,8 @@ def scenario_stats(scns, by_id):
             "preceded_by_another_app_whose_processor_rewrote_tag_arguments":
                 sum(1 for s in scns if s["id"] in by_id and foreign_first(s)),
             "another_app_started_between_the_start_and_the_lookups":
-                sum(1 for s in scns if s["id"] in by_id and later_app(s))}
+                sum(1 for s in scns if s["id"] in by_id and later_app(s)),
+            "ended_with_GetComponents": sum(1 for s in scns if s["id"] in by_id and s.get("bulk", s["id"] % 3 == 1))}
 
 
 def shape_hash(s):
